@@ -319,6 +319,37 @@ impl Check for IndexTables {
                 mocked.push(*ex);
             }
         }
+        // per-exchange link tables (what every execution link translates with): at each index the
+        // entry of exactly the entity with that index, and nothing of another exchange
+        for ex in indexed.exchanges() {
+            let map = match barter_execution::map::generate_execution_instrument_map(&indexed, ex.value) {
+                Ok(m) => m,
+                Err(e) => bad!("link-map-failed", "link table of {} cannot be built: {e}", ex.value),
+            };
+            if map.exchange.key != ex.key || map.exchange.value != ex.value {
+                bad!("link-map-exchange", "link table of {} carries exchange {:?}", ex.value, map.exchange);
+            }
+            for a in indexed.assets() {
+                let own = a.value.exchange == ex.value;
+                let got = map.find_asset_name_exchange(a.key).ok().cloned();
+                if got != own.then(|| a.value.asset.name_exchange.clone()) {
+                    bad!("link-map-asset", "link table of {}: asset index {} ({} on {}) resolves to {got:?}", ex.value, a.key.index(), a.value.asset.name_exchange, a.value.exchange);
+                }
+                if own && map.find_asset_index(&a.value.asset.name_exchange).ok() != Some(a.key) {
+                    bad!("link-map-asset", "link table of {}: asset name {} resolves to {:?}, that asset is index {}", ex.value, a.value.asset.name_exchange, map.find_asset_index(&a.value.asset.name_exchange), a.key.index());
+                }
+            }
+            for i in indexed.instruments() {
+                let own = i.value.exchange.value == ex.value;
+                let got = map.find_instrument_name_exchange(i.key).ok().cloned();
+                if got != own.then(|| i.value.name_exchange.clone()) {
+                    bad!("link-map-instrument", "link table of {}: instrument index {} ({} on {}) resolves to {got:?}", ex.value, i.key.index(), i.value.name_exchange, i.value.exchange.value);
+                }
+                if own && map.find_instrument_index(&i.value.name_exchange).ok() != Some(i.key) {
+                    bad!("link-map-instrument", "link table of {}: instrument name {} resolves to {:?}, that instrument is index {}", ex.value, i.value.name_exchange, map.find_instrument_index(&i.value.name_exchange), i.key.index());
+                }
+            }
+        }
         let build = builder.build();
         let links: Vec<(ExchangeId, bool)> = (&build.execution_tx_map).into_iter().map(|(e, tx)| (*e, tx.is_some())).collect();
         let want_links: Vec<(ExchangeId, bool)> = indexed.exchanges().iter().map(|e| (e.value, mocked.contains(&e.value))).collect();
